@@ -575,9 +575,10 @@ namespace
     value select_array_scalar(runtime& runtime, value::cref left, value::cref right)
     {
         auto arr = left.data<d_array>()->value();
-        auto index = static_cast<int>(std::round(right.data<d_scalar, float>()));
+        auto findex = std::round(right.data<d_scalar, float>());
+        auto index = static_cast<int>(d_scalar(findex));
 
-        if (static_cast<int>(arr.size()) < index || index < 0)
+        if (findex != findex || static_cast<int>(arr.size()) < index || index < 0)
         {
             runtime.__logmsg(err::IndexOutOfRange(runtime.context_active().current_frame().diag_info_from_position(), arr.size(), index));
             return {};
@@ -628,7 +629,7 @@ namespace
             runtime.__logmsg(err::ExpectedArrayTypeMissmatch(runtime.context_active().current_frame().diag_info_from_position(), 1, t_scalar(), arr[0].type()));
             return {};
         }
-        int start = static_cast<int>(std::round(arr[0].data<d_scalar, float>()));
+        int start = static_cast<int>(d_scalar(std::round(arr[0].data<d_scalar, float>())));
         if (start < 0)
         {
             runtime.__logmsg(err::NegativeIndexWeak(runtime.context_active().current_frame().diag_info_from_position()));
@@ -648,7 +649,7 @@ namespace
                 runtime.__logmsg(err::ExpectedArrayTypeMissmatch(runtime.context_active().current_frame().diag_info_from_position(), 1, t_scalar(), arr[1].type()));
                 return {};
             }
-            int length = static_cast<int>(std::round(arr[1].data<d_scalar, float>()));
+            int length = static_cast<int>(d_scalar(std::round(arr[1].data<d_scalar, float>())));
             if (length < 0)
             {
                 runtime.__logmsg(err::NegativeIndexWeak(runtime.context_active().current_frame().diag_info_from_position()));
@@ -656,7 +657,7 @@ namespace
                 return value(std::make_shared<d_array>());
             }
 
-            return value(std::vector<value>(vec.begin() + start, start + length > static_cast<int>(vec.size()) ? vec.end() : vec.begin() + start + length));
+            return value(std::vector<value>(vec.begin() + start, length > static_cast<int>(vec.size()) - start ? vec.end() : vec.begin() + start + length));
         }
         else
         {
@@ -813,6 +814,11 @@ namespace
             return {};
         }
         auto i = right.data<d_scalar, size_t>();
+        if (i > d_array::max_size)
+        {
+            runtime.__logmsg(err::IndexOutOfRange(runtime.context_active().current_frame().diag_info_from_position(), d_array::max_size, i));
+            return {};
+        }
         left.data<d_array>()->resize(i);
         return {};
     }
@@ -822,8 +828,8 @@ namespace
         {
             return {};
         }
-        auto from = (int)std::roundf((*right.data<d_array>())[0].data<d_scalar, float>());
-        auto to = (int)std::roundf((*right.data<d_array>())[1].data<d_scalar, float>());
+        auto from = static_cast<int>(d_scalar(std::roundf((*right.data<d_array>())[0].data<d_scalar, float>())));
+        auto to = static_cast<int>(d_scalar(std::roundf((*right.data<d_array>())[1].data<d_scalar, float>())));
 
         auto arr = left.data<d_array>();
         if (from > to)
@@ -840,7 +846,11 @@ namespace
         if (to >= (int)arr->size())
         {
             runtime.__logmsg(err::IndexOutOfRangeWeak(runtime.context_active().current_frame().diag_info_from_position(), arr->size(), to));
-            to = (int)(arr->size() - 1);
+            to = (int)arr->size() - 1;
+        }
+        if (from > to)
+        { // nothing left to delete (start beyond the last element, or the array is empty)
+            return {};
         }
         arr->erase(arr->begin() + from, arr->begin() + to + 1);
         return {};
@@ -1073,7 +1083,7 @@ namespace
         auto valswtch = runtime.context_active().get_variable(d_switch::magic);
         if (!valswtch.has_value() || !valswtch->is<t_switch>())
         {
-            runtime.__logmsg(err::MagicVariableTypeMissmatch(runtime.context_active().current_frame().diag_info_from_position(), d_switch::magic, t_switch(), valswtch->type()));
+            runtime.__logmsg(err::MagicVariableTypeMissmatch(runtime.context_active().current_frame().diag_info_from_position(), d_switch::magic, t_switch(), valswtch.has_value() ? valswtch->type() : sqf::runtime::type(t_nothing())));
             return {};
         }
         auto swtch = valswtch->data<d_switch>();
@@ -1089,7 +1099,7 @@ namespace
         auto valswtch = runtime.context_active().get_variable(d_switch::magic);
         if (!valswtch.has_value() || !valswtch->is<t_switch>())
         {
-            runtime.__logmsg(err::MagicVariableTypeMissmatch(runtime.context_active().current_frame().diag_info_from_position(), d_switch::magic, t_switch(), valswtch->type()));
+            runtime.__logmsg(err::MagicVariableTypeMissmatch(runtime.context_active().current_frame().diag_info_from_position(), d_switch::magic, t_switch(), valswtch.has_value() ? valswtch->type() : sqf::runtime::type(t_nothing())));
             return {};
         }
         auto swtch = valswtch->data<d_switch>();
@@ -1104,7 +1114,7 @@ namespace
         auto valswtch = runtime.context_active().get_variable(d_switch::magic);
         if (!valswtch.has_value() || !valswtch->is<t_switch>())
         {
-            runtime.__logmsg(err::MagicVariableTypeMissmatch(runtime.context_active().current_frame().diag_info_from_position(), d_switch::magic, t_switch(), valswtch->type()));
+            runtime.__logmsg(err::MagicVariableTypeMissmatch(runtime.context_active().current_frame().diag_info_from_position(), d_switch::magic, t_switch(), valswtch.has_value() ? valswtch->type() : sqf::runtime::type(t_nothing())));
             return {};
         }
         auto swtch = valswtch->data<d_switch>();
@@ -1239,6 +1249,11 @@ namespace
         if (index < 0)
         {
             runtime.__logmsg(err::NegativeIndex(runtime.context_active().current_frame().diag_info_from_position()));
+            return {};
+        }
+        if (static_cast<size_t>(index) >= d_array::max_size)
+        {
+            runtime.__logmsg(err::IndexOutOfRange(runtime.context_active().current_frame().diag_info_from_position(), d_array::max_size, index));
             return {};
         }
         auto val = params[1];
@@ -1882,6 +1897,11 @@ namespace
     value selectrandom_array(runtime& runtime, value::cref right)
     {
         auto arr = right.data<d_array>();
+        if (arr->empty())
+        {
+            runtime.__logmsg(err::ReturningNil(runtime.context_active().current_frame().diag_info_from_position()));
+            return {};
+        }
         return arr->at(rand() % arr->size());
     }
     value sleep_scalar(runtime& runtime, value::cref right)
